@@ -52,4 +52,11 @@ CHECKS = {
         technique="runtime monitoring: icontract post-conditions on align/add_x + source-segment preservation oracle on fix-only runs",
         ref="DESIGN.md section 4 C11",
     ),
+    "C10": dict(
+        level="exploration",
+        text="Generated displays mix managed leaves with Is(...), f-strings, dirty-equals expressions (stub), star-expression containers and nested snapshot() calls at depth <= 4; observations keep/change/remove elements and insert managed ones around them; the real code runs once per approved subset. Monitors: every unmanaged source segment located with ast before and after (nothing altered or invented; everything the statement guarantees still present verbatim: consistent elements, elements under surviving keys/keywords, frozen star containers with nested snapshot arguments masked, nested snapshot calls), and plain re-execution for the managed siblings of consistent sites after create+fix.",
+        note="dirty-equals is a 30-line stub (absent from the sandbox). Expectations are limited to what the statement guarantees: an inconsistent or removed unmanaged element of a sequence may disappear with its element or stay and keep the site failing.",
+        technique="runtime monitoring: ast-located source-segment preservation monitor + plain re-execution oracle over generated mixed managed/unmanaged displays",
+        ref="DESIGN.md section 4 C10",
+    ),
 }
